@@ -139,6 +139,13 @@ func (m *mach) builtinModel(fn *ssa.Function, args []mv) (mv, bool) {
 				}
 			}
 		}
+	case name == "reflect.TypeOf":
+		if i, ok := args[0].(mIface); ok {
+			return &mSym{name: "reflect.TypeOf(" + i.t.String() + ")", nonNil: true, rt: i.t}, true
+		}
+		if _, isNil := args[0].(mNilT); isNil {
+			return mNil, true
+		}
 	case name == "errors.New" || name == "fmt.Errorf":
 		return mIface{t: types.NewPointer(types.Universe.Lookup("error").Type()), v: &mSym{name: "error(" + mRender(args[0]) + ")", nonNil: true}}, true
 	case name == "fmt.Sprint" || name == "fmt.Sprintf" || name == "fmt.Sprintln":
